@@ -104,6 +104,7 @@ type State struct {
 	path           []string
 	segStart       string           // cut point where the current segment started: "entry" or "loop k"
 	segHeap        map[string]*Term // heap at the start of the current segment (for pre(...) in rows)
+	segAlloc       *Term            // allocation watermark at the start of the current segment (for newobj(...))
 	birth          map[string]*Term // heap map term (by key) -> allocation watermark when that version came into being (shared by all clones)
 	onceFacts      map[string]bool
 	segLocals      map[string]Val   // values of the unit frame's value-locals (loop phis) at the start of the segment
@@ -117,7 +118,7 @@ type State struct {
 func (st *State) top() *Frame { return st.frames[len(st.frames)-1] }
 
 func (st *State) clone() *State {
-	n := &State{heap: map[string]*Term{}, globals: map[*ssa.Global]Val{}, alloc: st.alloc, segStart: st.segStart, segHeap: st.segHeap, birth: st.birth, segLocals: st.segLocals, segSpec: st.segSpec, cancelled: st.cancelled, noObl: st.noObl}
+	n := &State{heap: map[string]*Term{}, globals: map[*ssa.Global]Val{}, alloc: st.alloc, segStart: st.segStart, segHeap: st.segHeap, segAlloc: st.segAlloc, birth: st.birth, segLocals: st.segLocals, segSpec: st.segSpec, cancelled: st.cancelled, noObl: st.noObl}
 	for k, v := range st.heap {
 		n.heap[k] = v
 	}
